@@ -1,7 +1,7 @@
 from specs.common import run, ASSUME_COMMON
 
 SPEC = {
-    "runs": [run("e2-history", "e2_history", "tsan", 300, 10000, sq=6, st=16, params={"prop": "C03"},
+    "runs": [run("e2-history", "e2_history", "tsan", 300, 10000, sq=6, st=16, params={"prop": "C03"}, tier_params={"quick": {"xcheck": 8}, "thorough": {"xcheck": 40}},
                  fallback_flavour="tsan-plain", timeout={"quick": 1500, "thorough": 10800})],
     "floors": {"quick": {'batches_before-first-flush': 500, 'batches_during-flush': 100, 'batches_after-flush': 500, 'batches_drain-after-flush': 8, 'batches_drain-no-flush': 8, 'simple_calls_while_another_caller_inside': 1000, 'periodic_exports': 100, 'histories_periodic_export_outlives_timeout': 4, 'histories_simple-span': 10, 'histories_simple-log': 10}, "thorough": {'batches_before-first-flush': 50000, 'batches_during-flush': 10000, 'batches_after-flush': 50000, 'batches_drain-after-flush': 500, 'batches_drain-no-flush': 500, 'simple_calls_while_another_caller_inside': 100000, 'periodic_exports': 10000}},
     "engine": "E2 history",
